@@ -303,8 +303,13 @@ func (s *symbol05) control(probe func(string)) (string, *fail) {
 			synOK = false
 		}
 	}
+	alt := s.tr.Sender == "reference-alt144" // a non-standard arrangement: may be rejected in any way
 	if d.pan != nil {
-		return "skip:decoder panicked on an undamaged symbol (outside C05): " + fmt.Sprint(d.pan), nil
+		if alt {
+			return "skip:reference-alt symbol crashes the decoder", nil
+		}
+		// "up to floor(ec/2)" includes none: the undamaged symbol must decode to the original text
+		return "", &fail{"control/panic", fmt.Sprintf("undamaged %s: decoder panicked: %v", s.describe(), d.pan)}
 	}
 	if d.err != nil {
 		if isChecksum(d.err) {
@@ -316,7 +321,10 @@ func (s *symbol05) control(probe func(string)) (string, *fail) {
 			}
 			return "skip:reference-alt symbol rejected (expected for the non-standard arrangement)", nil
 		}
-		return "skip:control failed outside the error-control layer: " + d.err.Error(), nil
+		if alt || !synOK {
+			return "skip:control failed outside the error-control layer: " + d.err.Error(), nil
+		}
+		return "", &fail{"control/error", fmt.Sprintf("undamaged %s (zero syndromes by the harness layout) is not decoded: %T %v", s.describe(), d.err, d.err)}
 	}
 	if !synOK {
 		// decoder reads it although the harness layout sees non-zero
@@ -327,7 +335,10 @@ func (s *symbol05) control(probe func(string)) (string, *fail) {
 	}
 	if s.tr.Sender == "library" || s.tr.Sym == "qr" || true {
 		if d.text != s.tr.Text {
-			return "skip:control returns a different text (text layer, outside C05)", nil
+			if alt {
+				return "skip:reference-alt symbol decodes to another text", nil
+			}
+			return "", &fail{"control/text", fmt.Sprintf("undamaged %s decodes to %q, the original text is %q", s.describe(), trunc(d.text), trunc(s.tr.Text))}
 		}
 	}
 	// raw data codewords as the harness reads them
@@ -891,7 +902,7 @@ func C05() *kit.Spec {
 		StateMetric: "distinct (symbol shape, sender, payload, fault plan) hashes; per-sweep counters",
 		Assumptions: []string{
 			"faults are placed by the harness's own QR/Data Matrix layout models; every library-made symbol is first read through that layout and must show zero reference syndromes (otherwise the symbol is skipped and counted, never reported)",
-			"a control (undamaged symbol) that fails outside the error-control layer, or returns another text, is outside C05: skipped and counted",
+			"\"up to floor(ec/2)\" includes none: an undamaged symbol (printable ASCII payload; library-made, or reference-made with zero syndromes) that is not decoded to its text is a violation; only the deliberately non-standard reference arrangement of 144x144 may be rejected",
 			"nothing beyond the stated budget is injected",
 		},
 		Components: map[string]string{
